@@ -55,6 +55,11 @@ theorem C10_subresource (pv) (cfg : Config) (w : World Ev) (r : Request)
   have h' : ignoredSubresources.contains ([] : Str) = false := by decide
   simp only [validatePod, h, h', Bool.false_eq_true, ↓reduceIte]
 
+/-- the names are matched byte for byte: a spelling that differs in letter case, is padded, or is empty names another
+    subresource (or none), which `C10_subresource` says is handled like the main resource -/
+example : [b!"Status", b!"STATUS", b!"portForward", b!"Exec", b!"status ", b!"statuses", b!"ephemeralcontainers", b!"resize"].all
+    (fun s => !ignoredSubresources.contains s) = true := by decide
+
 /-- the ignored set is exactly the eight names of the property -/
 theorem C10_ignored_names : ignoredSubresources =
     [b!"exec", b!"attach", b!"binding", b!"eviction", b!"log", b!"portforward", b!"proxy", b!"status"] := rfl
